@@ -1,7 +1,7 @@
 (* C01 - analytic component derivatives equal the true derivatives.  Property theorems only (statements printed by Coq from the libraries Real/*Deriv.v).  DR g t0 p  :=  g t0 = fst p /\ is_derive g t0 (snd p);  every theorem says: along ANY differentiable curve of the inputs, the dual-number evaluation of the component model gives the value and the derivative - hence every partial derivative (C01_dual_number_tangent_is_the_partial_derivative) and, by composition, every chain of components (part 1) *)
 From Coq Require Import Reals ZArith Lra Lia Arith Bool List String.
 From Coquelicot Require Import Coquelicot.
-From OAS Require Import Scalar Rops Sums Deriv Dual DualProofs Drag DragDeriv Stress StressDeriv StressProofs Transfer TransferDeriv Loads LoadsDeriv Functionals FunctionalsDeriv Aero AeroDeriv PG PGDeriv Beam BeamTables BeamDeriv Geom GeomDeriv Misc MiscDeriv MultiSec MultiSecDeriv Wingbox WingboxDeriv Small SmallDeriv.
+From OAS Require Import Scalar Rops Sums Deriv Dual DualProofs Drag DragDeriv Stress StressDeriv StressProofs Transfer TransferDeriv Loads LoadsDeriv Functionals FunctionalsDeriv Aero AeroDeriv PG PGDeriv Beam BeamTables BeamDeriv Geom GeomDeriv Misc MiscDeriv MultiSec MultiSecDeriv Wingbox WingboxDeriv Small SmallDeriv Mphys MphysDeriv.
 Open Scope R_scope.
 
 (* the meaning of every statement below: the tangent part of the dual-number evaluation is the coordinate partial derivative *)
@@ -134,13 +134,13 @@ Proof. exact vm_wingbox_DR. Qed.
 Print Assumptions C01_VonMisesWingbox.
 
 (* structures/failure_exact.py; FailureKS is C15_ks_reported_derivative *)
-Theorem C01_FailureKS :
+Theorem C01_FailureExact :
   forall (S : R -> R) (V : R -> nat -> R) (t0 : R) (s : dual R) (v : nat -> dual R) (i : nat),
   DR S t0 s ->
   (forall k : nat, DR (fun t : R => V t k) t0 (v k)) ->
   S t0 <> 0 -> DR (fun t : R => failure_exact (S t) (V t) i) t0 (failure_exact s v i).
 Proof. exact failure_exact_DR. Qed.
-Print Assumptions C01_FailureKS.
+Print Assumptions C01_FailureExact.
 
 Theorem C01_NonIntersectingThickness :
   forall (Th Rd : R -> nat -> R) (t0 : R) (th rd : nat -> dual R) (i : nat),
